@@ -421,6 +421,53 @@ theorem bookmarks_behind_writer (cap data : Nat) (hd : 0 < data) (ops : List Op)
   · exact Or.inl ⟨a, b⟩
   · exact Or.inr ⟨a, b, c⟩
 
+/-- model level: a mapped reader's region never intersects `[head, mapped)`, the part of the ring handed out for writing -/
+theorem model_region_avoids_pending {s : Sys} {g : Ghost} (hinv : Inv s g) (i : Nat) (hi : i < s.c.holds.length) :
+    C02.regionLen s i = 0 ∨ (nth s.c.holds i).pos + C02.regionLen s i ≤ s.c.head ∨ s.c.mapped ≤ (nth s.c.holds i).pos := by
+  have ri := (hinv.rd i hi).1
+  have hold := ri.hold
+  have hm' := hinv.hm
+  unfold C02.regionLen
+  by_cases hm : (nth s.rds i).mapped = true
+  · rw [if_pos hm]
+    have mr := ri.mapped hm
+    unfold HoldRel at hold
+    rcases availBytes_of_mapped _ _ _ mr with ⟨e, _, _⟩ | ⟨e, _, _, _, e5⟩
+    · rw [e]
+      rcases mr with ⟨_, m2, m3, m4⟩ | ⟨_, m2, _, _⟩
+      · rcases hold with ⟨a, _, _⟩ | ⟨a, b, _, _⟩
+        · have := m3 a
+          right; left; omega
+        · right; right; exact b
+      · omega
+    · rw [e]
+      rcases hold with ⟨a, _, _⟩ | ⟨_, b, _, _⟩
+      · omega
+      · right; right; exact b
+  · rw [if_neg hm]; left; rfl
+
+/-- **readers and the writer never share bytes (C02, on the C fields)** — after any well-formed history the region reader `i` has
+mapped, `[holds_pos[i], holds_pos[i] + regionLen i)`, does not intersect `[head, mapped)`, the part of the ring currently handed out
+for writing. -/
+theorem mapped_regions_avoid_pending_write (cap data : Nat) (hd : 0 < data) (ops : List Op) (hwf : wfRun (Sys.init cap) ops = true)
+    (i : Nat) (hi : i < (crun (CSys.init cap data) ops).ch.holds_n) :
+    C02.regionLen (run (Sys.init cap) ops) i = 0 ∨
+      (crun (CSys.init cap data) ops).ch.holds_pos.getD i 0 + C02.regionLen (run (Sys.init cap) ops) i
+        ≤ (crun (CSys.init cap data) ops).ch.head ∨
+      (crun (CSys.init cap data) ops).ch.mapped ≤ (crun (CSys.init cap data) ops).ch.holds_pos.getD i 0 := by
+  have hs := refine_history cap data hd ops hwf
+  have hinv : Inv (run (Sys.init cap) ops) (grun (Sys.init cap) {} ops) := (Inv.init cap).run ops hwf
+  have hn := hs.n_le hinv
+  have hl := hinv.l_rds
+  have h := model_region_avoids_pending hinv i (by omega)
+  have hb : (nth (run (Sys.init cap) ops).c.holds i).pos = (crun (CSys.init cap data) ops).ch.holds_pos.getD i 0 := by
+    unfold nth
+    rw [← hs.ch]
+    simp only [abs]
+    rw [holdsOf_getD _ _ _ _ hi]
+  rw [hb, ← hs.ch] at h
+  exact h
+
 /-! ## non-vacuity: a concrete history with a wrap, a lap change and partial consumption, run through the translated functions -/
 def demoOps : List Op :=
   [.join, .wmap 10, .wcommit, .rmap 0, .runmap 0 10, .join, .runmap 1 10, .wmap 10, .wcommit, .rmap 0, .runmap 0 3,
